@@ -971,6 +971,19 @@ func (w *_assembler) AssignString(s string) error {
 	if err := compatibleKind(w.schemaType, datamodel.Kind_String); err != nil {
 		return err
 	}
+	if typ, ok := w.schemaType.(*schema.TypeEnum); ok {
+		// At the type level an enum is one of its member names; anything else does not inhabit the type.
+		isMember := false
+		for _, member := range typ.Members() {
+			if member == s {
+				isMember = true
+				break
+			}
+		}
+		if !isMember {
+			return fmt.Errorf("AssignString: %q is not a valid member of enum %s", s, typ.Name())
+		}
+	}
 	customConverter := w.cfg.converterFor(w.schemaType.Name(), w.val)
 	_, isAny := w.schemaType.(*schema.TypeAny)
 	if customConverter != nil {
@@ -1383,6 +1396,8 @@ type _unionAssembler struct {
 	// TODO: more state checks
 
 	curKey _assembler
+
+	entries int // number of keys accepted so far; a union has exactly one entry
 }
 
 func (w *_unionAssembler) AssembleKey() datamodel.NodeAssembler {
@@ -1390,6 +1405,14 @@ func (w *_unionAssembler) AssembleKey() datamodel.NodeAssembler {
 		cfg:        w.cfg,
 		schemaType: schemaTypeString,
 		val:        reflect.New(goTypeString).Elem(),
+	}
+	// A second entry must be rejected rather than silently replace the first member.
+	w.curKey.finish = func() error {
+		if w.entries >= 1 {
+			return schema.ErrNotUnionStructure{TypeName: w.schemaType.Name(), Detail: "a union must have exactly one entry"}
+		}
+		w.entries++
+		return nil
 	}
 	return &w.curKey
 }
